@@ -326,6 +326,10 @@ func (vc *VC) loopHeader(li *LoopInfo, reach Term, entrySt *State, entryPhi map[
 	}
 	// 1. invariant holds on entry
 	if fc != nil && li.ordinal > 0 {
+		for _, cl := range fc.LoopHint[li.ordinal] {
+			// instances of spec-function definitions: true by definition, assumed (entry state)
+			vc.addAssume(reach, vc.loopClause(li, cl, entryPhi, entrySt))
+		}
 		for _, cl := range fc.LoopInv[li.ordinal] {
 			t := vc.loopClause(li, cl, entryPhi, entrySt)
 			vc.oblige("invariant-entry", fmt.Sprintf("loop%d", li.ordinal), reach, t, b.Instrs[0].Pos(), cl.Text)
@@ -359,6 +363,7 @@ func (vc *VC) loopHeader(li *LoopInfo, reach Term, entrySt *State, entryPhi map[
 			vc.assume("inferred loop frame (checked syntactically): every write into " + name + " inside the loop goes through memory allocated by this activation, so objects that existed at function entry are unchanged")
 		}
 	}
+	vc.flushWF(st)
 	li.havocPhi = map[*ssa.Phi]Val{}
 	for _, in := range b.Instrs {
 		phi, ok := in.(*ssa.Phi)
@@ -383,6 +388,9 @@ func (vc *VC) loopHeader(li *LoopInfo, reach Term, entrySt *State, entryPhi map[
 	li.havocState = st.clone()
 	// 3. assume invariant
 	if fc != nil && li.ordinal > 0 {
+		for _, cl := range fc.LoopHint[li.ordinal] {
+			vc.addAssume(reach, vc.loopClause(li, cl, li.havocPhi, st))
+		}
 		for _, cl := range fc.LoopInv[li.ordinal] {
 			t := vc.loopClause(li, cl, li.havocPhi, st)
 			vc.addAssume(reach, t)
@@ -501,6 +509,7 @@ func (vc *VC) markerNames(li *LoopInfo) []string {
 	if c := fc.LoopDec[li.ordinal]; c != nil {
 		clauses = append(clauses, c)
 	}
+	clauses = append(clauses, fc.LoopHint[li.ordinal]...)
 	for _, cl := range clauses {
 		ids, _ := freeIdents(cl.Go)
 		for _, id := range ids {
@@ -551,6 +560,7 @@ func (vc *VC) backEdge(from *ssa.BasicBlock, h *ssa.BasicBlock, cond Term, st *S
 // instructions
 
 func (vc *VC) instr(in ssa.Instruction, st *State, reach Term, b *ssa.BasicBlock) {
+	defer vc.flushWF(st)
 	if v, ok := in.(ssa.Value); ok {
 		if r, ok := vc.pure(in, vc.val, st, reach, true); ok {
 			if v.Name() != "" {
@@ -1391,6 +1401,9 @@ func (vc *VC) implFun(it types.Type) string {
 // strings
 
 func (vc *VC) strConcat(a, b Term) Term {
+	if vc.noDefine {
+		vc.fail("string concatenation under a quantifier or in a recursive spec function is not supported")
+	}
 	r := vc.freshConst("cat", "Str")
 	vc.quantCtx = true
 	vc.addAssume("true", and(eq(strLen(r), app("+", strLen(a), strLen(b))), app("<=", "0", app("st.off", r)),
